@@ -632,3 +632,56 @@ fire("C15", "zero-weight-skips-walk-step", "R15.2", E(TREE, "build_tree_skip_gra
      "seeded C15: the walk power no longer advances on a zero weight")
 silent("C15", "zero-weight-skips-only-the-add", E(TREE, "build_tree_skip_grams", "        count_matrix += walk * weights[i]\n", "        if weights[i] != 0:\n            count_matrix += walk * weights[i]\n"),
        "the same optimisation done right: the walk still advances")
+
+# --- round 2 seeds: C14 dispatch, C17 driver, C07 / C10 narrow locals, C20 counting
+for _fn in ("preprocess_token_sequences", "preprocess_tree_sequences"):
+    fire("C14", "mask-dispatch-truthiness-%s" % _fn, "R14.6", E(PP, _fn, "    if masking is None:", "    if not masking:"),
+         "seeded r2_C14: mask_string='' takes the unmasked branch")
+silent("C14", "mask-dispatch-is-not-none", E(PP, "preprocess_token_sequences", "    if masking is None:", "    if not (masking is not None):"),
+       "the same identity test spelled negatively")
+fire("C17", "empty-columns-keep-one", "R17.6", E(IW, "column_weights", """        weights[i] = column_kl_divergence_func(
+            indices[indptr[i] : indptr[i + 1]],
+            data[indptr[i] : indptr[i + 1]],
+            baseline_probabilities,
+            prior_strength=prior_strength,
+            target=target,
+        )
+""", """        if indptr[i + 1] > indptr[i]:
+            weights[i] = column_kl_divergence_func(
+                indices[indptr[i] : indptr[i + 1]],
+                data[indptr[i] : indptr[i + 1]],
+                baseline_probabilities,
+                prior_strength=prior_strength,
+                target=target,
+            )
+"""), "seeded r2_C17: skipped empty columns keep the initial weight 1")
+silent("C17", "empty-columns-skipped-in-zeros", [E(IW, "column_weights", "    weights = np.ones(n_cols)", "    weights = np.zeros(n_cols)"),
+                                                E(IW, "column_weights", """        weights[i] = column_kl_divergence_func(
+            indices[indptr[i] : indptr[i + 1]],
+            data[indptr[i] : indptr[i + 1]],
+            baseline_probabilities,
+            prior_strength=prior_strength,
+            target=target,
+        )
+""", """        if indptr[i + 1] > indptr[i]:
+            weights[i] = column_kl_divergence_func(
+                indices[indptr[i] : indptr[i + 1]],
+                data[indptr[i] : indptr[i + 1]],
+                baseline_probabilities,
+                prior_strength=prior_strength,
+                target=target,
+            )
+""")], "the same skip over a buffer of zeros: an empty column's divergence is 0")
+for _p, _r in (("C07", "R7.5"), ("C10", "R10.9")):
+    fire(_p, "arc-number-uint16", _r, E(LOT, None, "@numba.njit(nogil=True)\ndef get_transport_plan", '@numba.njit(nogil=True, locals={"i": numba.uint16, "j": numba.uint16, "arc": numba.uint16})\ndef get_transport_plan'),
+         "seeded r2_C07: the flat arc number wraps at 65536")
+    silent(_p, "loop-counters-uint32", E(LOT, None, "@numba.njit(nogil=True)\ndef get_transport_plan", '@numba.njit(nogil=True, locals={"i": numba.uint32, "j": numba.uint32})\ndef get_transport_plan'),
+           "only the loop counters are pinned; the arc number keeps full width")
+fire("C20", "no-bin-code-counted-in-last-bin", "R20.2", [E(VEC, "HistogramVectorizer._vector_transform", "        return pd.cut(vector, self.bin_intervals_).value_counts()",
+                                                          "        bin_codes = pd.cut(np.asarray(vector), self.bin_intervals_).codes\n        counts = np.zeros(len(self.bin_intervals_))\n        np.add.at(counts, bin_codes, 1)\n        return counts"),
+                                                        E(VEC, "HistogramVectorizer.transform", "self._vector_transform(seq).values", "self._vector_transform(seq)")],
+     "seeded C20: pd.cut's code -1 lands in the last bin")
+silent("C20", "codes-filtered", [E(VEC, "HistogramVectorizer._vector_transform", "        return pd.cut(vector, self.bin_intervals_).value_counts()",
+                                   "        bin_codes = pd.cut(np.asarray(vector), self.bin_intervals_).codes\n        bin_codes = bin_codes[bin_codes >= 0]\n        counts = np.zeros(len(self.bin_intervals_))\n        np.add.at(counts, bin_codes, 1)\n        return counts"),
+                                 E(VEC, "HistogramVectorizer.transform", "self._vector_transform(seq).values", "self._vector_transform(seq)")],
+       "the same speed-up with the no-bin code removed")
